@@ -122,6 +122,13 @@ ApplyRun(st, pm, type, usolve(_), psolve(_), rhs) ==
                  u   == usolve(ru)
              IN  [rhsU |-> <<ru>>, rhsP |-> <<fp>>, x |-> UP2X(pm, u, p)]
 
+\* the same program when the inner solves answer u1, u2 (type 2: u2 only) and p, whatever they are asked
+ApplyScripted(Dup, Dpu, pm, type, u1, u2, p, rhs) ==
+    LET fu == X2U(pm, rhs)
+        fp == X2P(pm, rhs)
+    IN  IF type = 1 THEN [rhsU |-> <<fu, VSubR(fu, MV(Dup, p))>>, rhsP |-> <<VSubR(fp, MV(Dpu, u1))>>, x |-> UP2X(pm, u2, p)]
+        ELSE [rhsU |-> <<VSubR(fu, MV(Dup, p))>>, rhsP |-> <<fp>>, x |-> UP2X(pm, u2, p)]
+
 \* ---------------------------------------------------------------- exact inner solves
 ExactU(st, v) == Solve(st.Duu, v).x
 \* the Schur operator as a dense matrix (column j = spmv of the j-th unit vector)
